@@ -6,13 +6,15 @@ import os
 ROOT = os.path.dirname(os.path.dirname(os.path.abspath(__file__)))
 ALL = ['C%02d' % i for i in range(1, 21)]
 PENDING_REASON = {}
+# checks registered in MANIFEST.json (a module file may exist before it is ready)
+READY = ['C01', 'C02', 'C05', 'C06', 'C07', 'C20']
 
 
 def main():
   checks, na = [], []
   for pid in ALL:
     path = os.path.join(ROOT, 'vf', pid.lower() + '.py')
-    if not os.path.exists(path):
+    if not os.path.exists(path) or pid not in READY:
       na.append({'property_id': pid,
                  'reason': PENDING_REASON.get(pid, 'check designed (DESIGN.md section 4) but not built yet; not claimed until it runs quietly on the unchanged tree')})
       continue
